@@ -147,10 +147,18 @@ func ruleRebuildFromStoredSnapshot(w *core.World, r *core.Report) {
 		return
 	}
 	n := 0
-	for _, s := range core.SitesNamed(f, false, "pkg/redis/checkpoint.RebuildBisyncFrontier") {
-		if s.Instr.Parent() != f {
+	var rebuilds []core.Site
+	for _, g := range reachableFuncs(f) {
+		if g != f && !(g.Parent() == nil && core.Transparent != nil && core.Transparent(g)) {
 			continue
 		}
+		for _, s := range core.SitesNamed(g, false, "pkg/redis/checkpoint.RebuildBisyncFrontier") {
+			if s.Instr.Parent() == g {
+				rebuilds = append(rebuilds, s)
+			}
+		}
+	}
+	for _, s := range rebuilds {
 		n++
 		bad := ""
 		seen := map[ssa.Value]bool{}
@@ -173,6 +181,21 @@ func ruleRebuildFromStoredSnapshot(w *core.World, r *core.Report) {
 				}
 			case *ssa.Extract:
 				if c, ok := x.Tuple.(*ssa.Call); ok && x.Index == 0 && core.ResolveCall(c).Name == "pkg/redis/checkpoint.LoadBisyncFrontierSnapshot" {
+					return
+				}
+			case *ssa.Parameter:
+				// handed to a helper of the start point: what its callers hand in
+				h := x.Parent()
+				sites := callSitesOf(w, h)
+				if len(sites) > 0 {
+					for _, cs := range sites {
+						args := cs.(ssa.CallInstruction).Common().Args
+						for k, hp := range h.Params {
+							if hp == x && k < len(args) {
+								visit(args[k])
+							}
+						}
+					}
 					return
 				}
 			}
